@@ -925,6 +925,36 @@ func c16FirstForCond(fd *ast.FuncDecl) ast.Expr {
 	return found
 }
 
+// c16StructFields: the (field, value text) pairs of the first composite literal with keyed fields in the function -
+// which parameter (or call) every field of the constructed value is initialised from
+func (e *emitter) c16StructFields(s *source, rel, goName, leanName string) {
+	fd := s.findFunc(rel, goName)
+	if fd == nil {
+		e.c16Fail(leanName, "function "+goName+" not found in "+rel)
+		return
+	}
+	var lit *ast.CompositeLit
+	ast.Inspect(fd.Body, func(nd ast.Node) bool {
+		if cl, ok := nd.(*ast.CompositeLit); ok && lit == nil && len(cl.Elts) > 0 {
+			if _, ok := cl.Elts[0].(*ast.KeyValueExpr); ok {
+				lit = cl
+			}
+		}
+		return lit == nil
+	})
+	if lit == nil {
+		e.c16Fail(leanName, "no keyed composite literal in "+goName)
+		return
+	}
+	var out []string
+	for _, el := range lit.Elts {
+		if kv, ok := el.(*ast.KeyValueExpr); ok {
+			out = append(out, fmt.Sprintf("(%s, %s)", leanString(strings.Join(strings.Fields(s.src(kv.Key)), " ")), leanString(strings.Join(strings.Fields(s.src(kv.Value)), " "))))
+		}
+	}
+	e.printf("/-- fields of the value `%s` constructs (%s): (field, initialised from) -/\ndef %s : List (String × String) := [%s]\n\n", goName, rel, leanName, strings.Join(out, ", "))
+}
+
 func c16Round5(s *source, e *emitter, t *translator) {
 	const (
 		sm = "core/collection/safemap.go"
@@ -949,6 +979,13 @@ func c16Round5(s *source, e *emitter, t *translator) {
 	e.c16Expr(t, s, rw, "RollingWindow.updateOffset", "rwResetIndex", false, c16ArgOfCall(s, "rw.win.resetBucket", 0))
 	// loop exits of Range
 	e.c16RangeLoops(s, sm, "SafeMap.Range", "safeMapRangeLoops")
+	// constructors: which argument initialises which field
+	e.c16StructFields(s, ca, "NewCache", "newCacheFields")
+	e.c16StructFields(s, ca, "newKeyLru", "newKeyLruFields")
+	e.c16StructFields(s, rw, "NewRollingWindow", "newRollingWindowFields")
+	e.c16StructFields(s, rw, "newWindow", "newWindowFields")
+	e.c16StructFields(s, ff, "NewQueue", "newQueueFields")
+	e.c16StructFields(s, rg, "NewRing", "newRingFields")
 	// typed call lists: order of effects (lock / defer / call) and the arguments forwarded by delegating entry points
 	for _, f := range [][3]string{
 		{ca, "Cache.Set", "cacheSetCalls"}, {ca, "Cache.Get", "cacheGetCalls"}, {ca, "Cache.Del", "cacheDelCalls"},
